@@ -80,6 +80,20 @@ func Verif_C11_transact() {
 		case 1:
 			return verifErrBody
 		case 2:
+			// the panic value is whatever a failing body produces: a string, an error, or a
+			// runtime error (index out of range, nil map write) - a program defect in the body
+			// must not leave the transaction open
+			switch verifChoose("panicValue", 4) {
+			case 1:
+				panic(verifErrBody)
+			case 2:
+				var xs []int
+				idx := 3
+				_ = xs[idx] // runtime error: index out of range
+			case 3:
+				var m map[string]int
+				m["k"] = 1 // runtime error: assignment to entry in nil map
+			}
 			panic("body panicked")
 		}
 		return nil
